@@ -134,6 +134,18 @@ def state_rule(res, rule, facts, entries):
     res.floor(rule, 1)
 
 
+def clone_rule(res, rule, facts):
+    """a clone of a builder / carrier / key value has the original's fields (rules/layers.py clone_identity)"""
+    from .. import layers
+    for f in layers.clone_identity(facts, rule):
+        res.oblige(f.ok)
+        if f.ok:
+            res.inst(f.rule, f.desc)
+        else:
+            res.violate(f.rule, f.where, f.construct, f.msg, file=f.file, line=f.line)
+    res.floor(rule, 6)
+
+
 def refusal_rules(res, rule, facts):
     """parse_raw_token turns a token away only for a stated cause, and decodes the payload segment with URL_SAFE_NO_PAD
     (round-trip side of the textual gates: what the producing side writes is never refused)."""
